@@ -725,8 +725,13 @@ impl Family for SrvFinFam {
                             (true, true) => "closed its session without waiting for the SYNACK",
                             (false, true) => "sent FIN without waiting for the SYNACK",
                         };
+                        // A client that tears its whole session down is not an endpoint finishing its stream:
+                        // bytes still inside the server when the session dies may go down with it (that is
+                        // C09's subject). What did arrive must be a prefix of what was sent; the rest of the
+                        // case (how the target's connection ends) is judged as always.
+                        let torn = case.by_session_close && got.len() < up.len() && up.starts_with(&got);
                         ensure!(
-                            ok && got == up,
+                            torn || (ok && got == up),
                             "C08.P2",
                             "the client sent {} bytes{} and {how} ({:?}); the target received {} of them{}",
                             up.len(),
